@@ -15,6 +15,7 @@ DEFAULT_PROFILE = {
     'p_fault_beh': 250,      # a phase invocation misbehaves
     'p_opts': 200,           # a phase has non-default options
     'p_meas': 300,
+    'max_meas': 2,           # measurements per phase: 1..max_meas
     'p_diag': 250,
     'p_internal_diag': 300,  # share of eligible (non-failure) phase diagnosers that issue internal diagnoses
     'p_plug': 0,
@@ -149,7 +150,7 @@ class Gen(object):
     meas = []
     force_meas = opts['repeat_on_measurement_fail'] or opts['stop_on_measurement_fail']
     if force_meas or self.chance('p_meas'):
-      for j in range(1 + t.draw(2, 'nmeas')):
+      for j in range(1 + t.draw(self.p.get('max_meas', 2), 'nmeas')):
         meas.append({'name': 'm%d_%d' % (k, j),
                      'validator': t.weighted([(3, ['in_range', 0, 10]), (1, None), (1, ['equals', 5])], 'val')})
     diags = []
